@@ -47,8 +47,14 @@ class Project(object):
             for package in sys.modules:
                 modules.add(package.partition('.')[0])
 
-        for p in path:
-            pdir = os.path.join(p, *root.split('.'))
+        try:
+            pdirs = self.package_dirs(root) if root else None
+        except ImportError:
+            pdirs = []
+        if pdirs is None:
+            pdirs = [os.path.join(p, *root.split('.')) for p in path]
+
+        for pdir in pdirs:
             try:
                 dlist = os.listdir(pdir)
             except OSError:
@@ -96,10 +102,19 @@ class Project(object):
             pass
 
         path = self.get_path()
+        parts = name.split('.')
+        if len(parts) > 1:
+            pdirs = self.package_dirs('.'.join(parts[:-1]))
+            if pdirs is not None:
+                # a submodule is looked up where its parent package lives, even if
+                # another root has a package of the same name that would provide it
+                path = pdirs
+                parts = parts[-1:]
+
         filename = None
         is_source = False
         for p in path:
-            mpath = os.path.join(p, *name.split('.'))
+            mpath = os.path.join(p, *parts)
             for s in SUFFIXES:
                 fname = mpath + s
                 if os.path.exists(fname):
@@ -133,6 +148,31 @@ class Project(object):
 
         self._module_cache[name] = module
         return module
+
+    def package_dirs(self, name):
+        # type: (str) -> list[str] | None
+        """Directories searched for the submodules of package `name`; None for a
+        namespace package (a plain directory): callers then search every root"""
+        try:
+            module = self.get_module(name)
+        except ImportError:
+            parent, sep, last = name.rpartition('.')
+            bases = self.package_dirs(parent) if sep else None
+            if bases is None:
+                bases = [sep and os.path.join(p, *parent.split('.')) or p
+                         for p in self.get_path()]
+            if any(os.path.isdir(os.path.join(b, last)) for b in bases):
+                return None
+            raise
+
+        filename = getattr(module, 'filename', None)
+        if filename:
+            if os.path.basename(filename).partition('.')[0] == '__init__':
+                return [os.path.dirname(filename)]
+            return []  # a plain module has no submodule files
+
+        mpath = getattr(getattr(module, 'module', None), '__path__', None)
+        return mpath is not None and list(mpath) or []
 
     def norm_package(self, package, filename):
         # type: (str, str) -> str
